@@ -185,8 +185,9 @@ type zzRec struct {
 }
 
 type zzProg struct {
-	name string
-	fn   func(d *D, rec *[]zzRec)
+	name      string
+	fn        func(d *D, rec *[]zzRec)
+	rootArray bool
 }
 
 var zzWidths = []int{1, 8, 13, 17} // inside a byte, ends on a boundary, crosses one, crosses two
@@ -210,13 +211,13 @@ func zzSubFormat(w int) *Group {
 
 func zzPrograms() []zzProg {
 	return []zzProg{
-		{"flat", func(d *D, rec *[]zzRec) {
+		{name: "flat", fn: func(d *D, rec *[]zzRec) {
 			zzFU(d, rec, "a", zzW("w1"))
 			d.FieldS("b", zzW("w2"))
 			d.FieldRawLen("c", int64([]int{0, 5, 9}[vrt.Choice("rawLen", 3)]))
 			d.FieldBool("d")
 		}},
-		{"nested", func(d *D, rec *[]zzRec) {
+		{name: "nested", fn: func(d *D, rec *[]zzRec) {
 			d.FieldStruct("hdr", func(d *D) {
 				zzFU(d, rec, "x", zzW("w1"))
 				d.FieldU8("y")
@@ -233,7 +234,7 @@ func zzPrograms() []zzProg {
 				d.FieldU8("k")
 			})
 		}},
-		{"seek", func(d *D, rec *[]zzRec) {
+		{name: "seek", fn: func(d *D, rec *[]zzRec) {
 			d.FieldU8("a")
 			d.SeekRel(int64([]int{-8, -3, 0, 5, 16, 100}[vrt.Choice("delta", 6)]))
 			zzFU(d, rec, "b", zzW("w1"))
@@ -242,7 +243,7 @@ func zzPrograms() []zzProg {
 			d.SeekAbs(int64([]int{1, 17}[vrt.Choice("peekAt", 2)]), func(d *D) { d.FieldU("peek", 3) })
 			d.FieldU("e", 2)
 		}},
-		{"framed", func(d *D, rec *[]zzRec) {
+		{name: "framed", fn: func(d *D, rec *[]zzRec) {
 			d.FieldU8("a")
 			fl := int64([]int{0, 8, 11, 24}[vrt.Choice("frameLen", 4)])
 			d.FramedFn(fl, func(d *D) {
@@ -257,7 +258,7 @@ func zzPrograms() []zzProg {
 				d.FieldStruct("r", func(d *D) { d.FieldU("r1", 9) })
 			})
 		}},
-		{"ranges", func(d *D, rec *[]zzRec) {
+		{name: "ranges", fn: func(d *D, rec *[]zzRec) {
 			d.FieldU8("a")
 			first := int64([]int{0, 3, 12, 30}[vrt.Choice("first", 4)])
 			n := int64([]int{0, 1, 8, 13}[vrt.Choice("n", 4)])
@@ -270,7 +271,7 @@ func zzPrograms() []zzProg {
 			})
 			d.FieldU8("b")
 		}},
-		{"subformat", func(d *D, rec *[]zzRec) {
+		{name: "subformat", fn: func(d *D, rec *[]zzRec) {
 			d.FieldU("a", 3)
 			w := zzW("w1")
 			switch vrt.Choice("how", 4) {
@@ -285,7 +286,7 @@ func zzPrograms() []zzProg {
 			}
 			d.FieldU("z", 2)
 		}},
-		{"nestedroot", func(d *D, rec *[]zzRec) {
+		{name: "nestedroot", fn: func(d *D, rec *[]zzRec) {
 			d.FieldU("a", 5)
 			inner := vrt.Bytes("inner", 3)
 			if zzConcreteData {
@@ -294,7 +295,13 @@ func zzPrograms() []zzProg {
 			ibits := int64(vrt.IntRange("innerBits", 0, 24))
 			br := bitio.NewBitReader(inner, ibits)
 			zzInnerBuf, zzInnerBits = inner, ibits
-			switch vrt.Choice("how", 3) {
+			switch vrt.Choice("how", 4) {
+			case 3:
+				d.FieldArrayRootBitBufFn("unpackedArray", br, func(d *D) {
+					d.FieldU("e", zzW("w1"))
+					d.FieldU("e", 3)
+					d.FieldU("e", 9)
+				})
 			case 0:
 				d.FieldRootBitBuf("blob", br)
 			case 1:
@@ -307,13 +314,13 @@ func zzPrograms() []zzProg {
 			}
 			d.FieldU8("b")
 		}},
-		{"loop", func(d *D, rec *[]zzRec) {
+		{name: "loop", fn: func(d *D, rec *[]zzRec) {
 			w := zzW("w1")
 			d.FieldArrayLoop("elems", d.NotEnd, func(d *D) {
 				d.FieldU("e", w)
 			})
 		}},
-		{"symlayout", func(d *D, rec *[]zzRec) {
+		{name: "symlayout", fn: func(d *D, rec *[]zzRec) {
 			// fields placed at fully symbolic ranges (as decoders do that follow offsets
 			// found in the input): ordering, spans and gaps are decided by the solver
 			total := d.Len()
@@ -334,7 +341,18 @@ func zzPrograms() []zzProg {
 				}
 			})
 		}},
-		{"errors", func(d *D, rec *[]zzRec) {
+		{name: "rootarray", rootArray: true, fn: func(d *D, rec *[]zzRec) {
+			// a format whose root is an array: gap fields are appended to the array
+			n := vrt.IntRange("count", 0, 2)
+			for i := 0; i < n; i++ {
+				d.FieldStruct("elem", func(d *D) { d.FieldU8("v") })
+			}
+			if vrt.Choice("skip", 2) == 1 {
+				d.SeekRel(5)
+				d.FieldU("late", 3)
+			}
+		}},
+		{name: "errors", fn: func(d *D, rec *[]zzRec) {
 			d.FieldU8("a")
 			switch vrt.Choice("failure", 4) {
 			case 0:
@@ -385,7 +403,7 @@ func zzRunProgram(i int, forCover bool) (buf []byte, root *Value, err error, rec
 		fillGaps = vrt.Choice("fillGaps", 2) == 1
 	}
 	garbage := vrt.Bytes("sharedbuf", 8)
-	g := &Group{Name: "prog", Formats: []*Format{{Name: prog.name, RootName: prog.name, DecodeFn: func(d *D) any {
+	g := &Group{Name: "prog", Formats: []*Format{{Name: prog.name, RootName: prog.name, RootArray: prog.rootArray, DecodeFn: func(d *D) any {
 		prog.fn(d, &rec)
 		return nil
 	}}}}
@@ -406,6 +424,17 @@ func zzVerifCover(i int) {
 	total := int64(len(buf)) * 8
 	if fillGaps && total > 0 {
 		zzCheckCover(root, buf, total, zzPrograms()[i].name != "symlayout")
+	}
+	// nested buffers decoded as a format are gap filled on their own
+	if fillGaps && zzInnerBits > 0 {
+		_ = root.WalkPreOrder(func(v *Value, _ *Value, _ int, _ int) error {
+			if v != root && v.IsRoot && v.Format != nil {
+				if _, ok := v.V.(*Compound); ok {
+					zzCheckCover(v, zzInnerBuf, zzInnerBits, true)
+				}
+			}
+			return nil
+		})
 	}
 }
 
@@ -443,7 +472,8 @@ func VerifCoverSubformat()  { zzVerifCover(5) }
 func VerifCoverNestedRoot() { zzVerifCover(6) }
 func VerifCoverLoop()       { zzVerifCover(7) }
 func VerifCoverSymLayout()  { zzVerifCover(8) }
-func VerifCoverErrors()     { zzVerifCover(9) }
+func VerifCoverRootArray()  { zzVerifCover(9) }
+func VerifCoverErrors()     { zzVerifCover(10) }
 
 func VerifTreeFlat()       { zzVerifTree(0) }
 func VerifTreeNested()     { zzVerifTree(1) }
@@ -454,7 +484,8 @@ func VerifTreeSubformat()  { zzVerifTree(5) }
 func VerifTreeNestedRoot() { zzVerifTree(6) }
 func VerifTreeLoop()       { zzVerifTree(7) }
 func VerifTreeSymLayout()  { zzVerifTree(8) }
-func VerifTreeErrors()     { zzVerifTree(9) }
+func VerifTreeRootArray()  { zzVerifTree(9) }
+func VerifTreeErrors()     { zzVerifTree(10) }
 
 // ---- exported for the pkg/interp harnesses (overlay only) ----
 
